@@ -275,7 +275,6 @@ func main() {
 	sort.SliceStable(units, func(i, j int) bool { return units[i].cost > units[j].cost })
 
 	// ---- 2..5: run the units -------------------------------------------------
-	jobs := make(chan *job)
 	var mu sync.Mutex
 	var wg sync.WaitGroup
 	skipped := 0
@@ -283,26 +282,38 @@ func main() {
 	if s := os.Getenv("C20_WORKERS"); s != "" {
 		fmt.Sscan(s, &workers)
 	}
-	for w := 0; w < workers; w++ {
-		wg.Add(1)
-		go func() {
-			defer wg.Done()
-			for j := range jobs {
-				d := runWorker(dir, j.u, 45*time.Minute, false)
-				mu.Lock()
-				all = append(all, d)
-				mu.Unlock()
-			}
-		}()
-	}
+	// weighted pool: a unit occupies as many slots as it has executor goroutines
+	free := workers
+	cond := sync.NewCond(&mu)
 	for _, j := range units {
 		if r.OverBudget() {
 			skipped++
 			continue
 		}
-		jobs <- j
+		w := j.u.Par
+		if w < 1 {
+			w = 1
+		}
+		if w > workers {
+			w = workers
+		}
+		mu.Lock()
+		for free < w {
+			cond.Wait()
+		}
+		free -= w
+		mu.Unlock()
+		wg.Add(1)
+		go func(j *job, w int) {
+			defer wg.Done()
+			d := runWorker(dir, j.u, 45*time.Minute, false)
+			mu.Lock()
+			all = append(all, d)
+			free += w
+			cond.Broadcast()
+			mu.Unlock()
+		}(j, w)
 	}
-	close(jobs)
 	wg.Wait()
 	sort.Slice(all, func(i, j int) bool { return all[i].u.ID < all[j].u.ID })
 
